@@ -271,7 +271,8 @@ class _Ob:
 
 SA_KEYS = ("superadditive", "superadditive_cached")
 # the structural rules B1-B5 are necessary for every property about the bound computers (scope: the computers the property looks at)
-P_ALL = {"C01", "C02", "C03", "C04", "C07", "C08"}
+# C09 / C11 / C13 speak of "freshly recomputed bounds" for every registered computer: the history-freedom part (B1-B5) is theirs as well
+P_ALL = {"C01", "C02", "C03", "C04", "C07", "C08", "C09", "C11", "C13"}
 
 
 def rule_bounds(prog: Program, col: Collector) -> None:
@@ -304,7 +305,7 @@ def rule_bounds(prog: Program, col: Collector) -> None:
     sam = list(sam_funcs.values())
 
     # which computers each property looks at
-    scope = {"C01": sa, "C02": sa, "C03": sa, "C04": sam, "C07": sa + sam, "C08": sa + sam}[pid]
+    scope = {"C01": sa, "C02": sa, "C03": sa, "C04": sam, "C07": sa + sam, "C08": sa + sam}.get(pid, sa + sam)
     if pid == "C04" and not sam:
         raise AnchorMissing("no approximate (sam_apx_*) computer registered in BOUNDS")
 
